@@ -525,7 +525,7 @@ def run(ctx):
         cases += [gen_int_stream(rng, kind) for _ in range(ctx.n(900, 9000))]
     cases += gen_float_rows(rng, ctx.n(1500, 15000))
     cases += gen_rt(rng, ctx.n(600, 6000))
-    outs = run_driver(ctx, "C17", "\n".join(to_input(c) for c in cases) + "\n")
+    outs = run_driver(ctx, "C17", [(to_input(c)) + "\n" for c in cases])
     if outs is None or len(outs) != len(cases):
         ctx.broke("correspondence", "drv_C17", "driver returned %s lines for %d cases; rc=%s %s" % (None if outs is None else len(outs), len(cases), getattr(ctx, "driver_rc", "?"), getattr(ctx, "driver_err", "")))
         return
@@ -545,7 +545,7 @@ def run(ctx):
                     if new is None or new == line:
                         continue
                     stage2.append(mk_rows_case("d", c["sep"], new + b"\n9" + c["sep"] + b"8\n", [rng.choice([-1, nf]), -1], True, "printed-corrupt", False))
-    outs2 = run_driver(ctx, "C17", "\n".join(to_input(c) for c in stage2) + "\n") if stage2 else []
+    outs2 = run_driver(ctx, "C17", [(to_input(c)) + "\n" for c in stage2]) if stage2 else []
     if outs2 is None or len(outs2) != len(stage2):
         ctx.broke("correspondence", "drv_C17", "driver (stage 2) returned %s lines for %d cases" % (None if outs2 is None else len(outs2), len(stage2)))
         return
